@@ -720,12 +720,26 @@ func (x *Exec) conv(tdst, tsrc types.Type, v value) value {
 				if r.sort.W != 32 {
 					if r.op == OConst {
 						c := r.sval()
+						if !isSigned(tsrc) {
+							c = int64(r.u)
+							if r.u > 0x10FFFF {
+								c = 0xFFFD
+							}
+						}
 						if c < 0 || c > 0x10FFFF {
 							c = 0xFFFD
 						}
 						r = x.tb.Const(32, uint64(c))
+					} else if r.sort.W < 32 {
+						if isSigned(tsrc) {
+							r = x.tb.Sext(r, 32)
+						} else {
+							r = x.tb.Zext(r, 32)
+						}
 					} else {
-						panic(unsupported{"string(non-rune symbolic integer)"})
+						// wider than a rune: out-of-range values become U+FFFD
+						inr := x.tb.Ult(r, x.tb.Const(r.sort.W, 0x110000))
+						r = x.tb.Ite(inr, x.tb.Extract(r, 31, 0), x.tb.Const(32, 0xFFFD))
 					}
 				}
 				return x.mkStr(x.encodeRune(r))
